@@ -268,6 +268,22 @@ def run(ck):
             got = [t for t in got if not (t[0] == "X" and t[1] == "")]
             if show_tokens(want) != show_tokens(got):
                 problems.append("item denotation")
+        # ---- tested (not proved) model statements: clean => adequate (proved, sanity) and
+        #      clean & every written tag outside the C16 classes => the token-level round trip holds
+        fl = dict(kv.split("=") for kv in m.get("FLAGS", "").split())
+        if fl:
+            stats["model_clean"] = stats.get("model_clean", 0) + (fl["clean"] == "1")
+            if fl["clean"] == "1" and fl["adequate"] != "1":
+                problems.append("model: ser_clean but not adequate")
+            if fl["clean"] == "1" and fl["tags_ok"] == "1":
+                stats["model_roundtrip_expected"] = stats.get("model_roundtrip_expected", 0) + 1
+                if fl["roundtrip"] != "1":
+                    problems.append("model: clean, tags ok, but the token-level round trip fails")
+            if fl["clean"] != "1" and ok and not problems:
+                stats["flagged_but_roundtrips"] = stats.get("flagged_but_roundtrips", 0) + 1
+            if fl["clean"] == "1" and fl["tags_ok"] == "1" and not ok and not has_cr_or_nul(tree1) and plain_uris(tree1) \
+                    and "\ufeff" not in ser and not problems:
+                problems.append("implementation loses a tree the model calls clean")
         if problems:
             if "serialization" in problems and ok:
                 # model (pinned code) loses the tree on this input, the implementation does not: repaired in /repo
